@@ -49,8 +49,14 @@ func bookReportsReplay(e *env) error {
 			milli     int64
 		}
 		var rawRows []rawRow
+		fileRecs := make([]absRecipe, 0, len(c.Book))
 		for _, p := range order {
-			r := c.Book[p]
+			fileRecs = append(fileRecs, c.Book[p])
+		}
+		if len(c.Decl) > 0 {
+			fileRecs = c.Decl // the enumerated declaration order, repeated headings included (the last one wins)
+		}
+		for _, r := range fileRecs {
 			sb.WriteString(names[r.Name] + ":\n")
 			for _, in := range r.Ingr {
 				v := float64(in[1])
